@@ -120,6 +120,8 @@ static void multi_run(int run, int kind, vt::rng& g)
 {
     // dyadic sizes only, so that bin areas are powers of two and the reported sums are exact
     std::vector<binning> ds{binning{4, 0, -K, K / 2, 0, K}, binning{2, 3, 0, K / 4, -K / 2, K / 2}, binning{3, 0, K / 2, K, 0, K}};
+    // every other run: the third distribution is two-dimensional with a single bin of size 2 in y (the bin area is not the x size)
+    if ((run / 3) % 2 == 1) ds[2] = binning{3, 1, K / 2, K, -K, 2 * K};
     std::size_t const N = 24;
     int edges_left = 3; // fills exactly on an edge make the specification branch: keep them few per run
     std::vector<std::vector<fillspec>> plan(N);
